@@ -15,7 +15,8 @@ ENGINE = "iso14229-reference"
 TECHNIQUE = (
     "runtime oracle on helpers.parse_pdu / Response.matches / negative-response-to-exception mapping: request x reply matrix "
     "classified by an independent echo table (genuine / foreign service / changed primary identifier / undecodable); the request "
-    "is also carried by re-used request objects (judged once, then re-assigned through public attributes / setters / RawRequest.pdu)"
+    "is also carried by re-used request objects (judged once, then re-assigned through public attributes / setters / RawRequest.pdu); "
+    "requests and replies are also judged at PDU lengths up to and beyond 4095 and 65535 bytes (UDS over DoIP / HSFZ / TCP)"
 )
 LEVEL_TEXT = (
     "Exploration: for generated requests of every kind (typed, raw form, suppress-bit variants, raw requests of services without "
@@ -28,14 +29,22 @@ LEVEL_TEXT = (
     "another request of the same kind / of another kind of the same service / an unparsable head / a request of another service "
     "before its .pdu was replaced; the genuine reply to the new content must be accepted, the genuine reply to the previous content "
     "(stale) refused as mismatch whenever its service or echoed primary identifier differs, plus the reply matrix (whole for a "
-    "quarter of the re-used objects, a sample for the rest)."
+    "quarter of the re-used objects, a sample for the rest). An eighth of the requests are additionally judged at lengths nobody "
+    "tries (length classes: the longest PDUs up to 4095 bytes as control group, 4096..65535 bytes, more than 65535 bytes): the "
+    "request of the same kind with its open-ended part (data record, key, option record, list of identifiers / sources) extended "
+    "to that length (typed object built by the constructor, and raw) against short replies; the short request (0x23: one asking for "
+    "that many bytes) against its genuine reply extended to that length, that reply with one echoed byte changed per echo position / "
+    "another data length, other services' positive replies of that length and, for services whose reply has a fixed length, the "
+    "over-long (undecodable) reply of the right service; and both long."
 )
 LEVEL_NOTE = "Trusted: echo table and minimal genuine replies in vf/iso14229.py. Secondary echoes (e.g. DDDID of 0x2C) are not required to be compared."
 RULE = (
     "cases = (request bytes, reply bytes) pairs: requests from the C01 generators (all kinds) x reply families {genuine, other "
     "service positive (19 sids), echo byte changed per position, NR same/other service x all UDSErrorCodes, invalid codes, "
     "truncations, 2-byte 7F xx}; request forms {typed, raw, typed-reassigned, raw-reassigned (second use of the object after its "
-    "identifier / pdu was re-assigned; extra reply family: genuine reply to the previous content)}; non-trivial = every pair; "
+    "identifier / pdu was re-assigned; extra reply family: genuine reply to the previous content)}; length dimension {request long, "
+    "reply long, both long} x length class {<=4095, 4096..65535, >65535 bytes} x {genuine, echo byte changed per position, data "
+    "length changed, other service positive, over-long undecodable, NR same/other service, own frame}; non-trivial = every pair; "
     "distinct = distinct (request bytes, reply bytes, request form)"
 )
 ASSUMPTIONS = [
@@ -43,6 +52,7 @@ ASSUMPTIONS = [
     "a changed echo that also makes the reply undecodable may be refused as mismatch or as malformed",
     "a reply the reference calls malformed but the codec accepts and re-encodes identically is counted (lenient), not reported",
     "'the request' of a pair is what the request object says (its .pdu) at the moment the reply is judged, also when the same object said something else at an earlier use",
+    "the statement has no length limit: a request / reply that is well-formed by ISO 14229-1 stays a request / genuine reply of its service at any PDU length (4095 bytes is a limit of classic ISO-TP segmentation, not of UDS; gallia carries UDS over DoIP, HSFZ and TCP)",
 ]
 EXHAUSTIVE = {"quick": False, "thorough": False}
 EXHAUSTIVE_NOTE = "exhaustive sub-space: every UDSErrorCodes member x every typed service id for the negative-response paths"
@@ -63,12 +73,68 @@ def required_reach(tier: str) -> dict[str, int]:
     return {"#outcome.returned:": 19, "#outcome.mismatch:": 19, "#outcome.malformed:": 15, "#nrc.mapped:": len(UDSErrorCodes), "matches.direct": 100, "raw-untyped": 50, "matches.direct.changed-echo": 500, "raise_for_mismatch.raised": 500,
             # second use of one request object after its public attributes / .pdu were re-assigned
             "#reuse.typed:": 30, "#reuse.stale-judged:": 10, "reuse.stale-judged.typed-reassigned": 500, "reuse.stale-judged.raw-reassigned": 500,
-            "reuse.stale-judged.other-service": 300, "reuse.raw.same-kind": 300, "reuse.raw.same-service-other-kind": 200, "reuse.raw.unparsable-head": 300, "reuse.raw.other-service": 300}
+            "reuse.stale-judged.other-service": 300, "reuse.raw.same-kind": 300, "reuse.raw.same-service-other-kind": 200, "reuse.raw.unparsable-head": 300, "reuse.raw.other-service": 300,
+            # length dimension: services with an open-ended request / reply reached long, typed long requests per kind, every length class on every side
+            "#long.request:": 10, "#long.reply:": 9, "#long.request.typed:": 16,
+            "long.request.le-4095": 20, "long.request.gt-4095": 80, "long.request.gt-65535": 25,
+            "long.reply.le-4095": 30, "long.reply.gt-4095": 100, "long.reply.gt-65535": 30,
+            "long.both.le-4095": 15, "long.both.gt-4095": 50, "long.both.gt-65535": 15,
+            "long.reply-overlong-undecodable.gt-4095": 100, "long.reply-overlong-undecodable.gt-65535": 25}
 
 
 PREVIOUS_MAX = 60  # longest first-use content of a re-used object (witnesses keep byte strings up to 64 bytes in full, replay needs it)
 REUSED_SHARE = 0.5  # fraction of the generated requests that are also judged on re-used request objects
 REUSED_FULL_MATRIX = 0.25  # fraction of re-used request objects that get the whole reply matrix (all get genuine / stale / one changed echo per position / a sample of the rest)
+
+# ---- length dimension: PDUs of a size no segmenting transport field bounds (UDS over DoIP / HSFZ / TCP has no 4095-byte limit) ----------
+LONG_SHARE = {"quick": 0.12, "thorough": 0.12}  # fraction of the generated requests that are also judged with a long request / long replies
+LONG_HEAD_MAX = 60  # only requests / replies up to this length are stretched: a long byte string is then (its first 64 bytes, length, k)
+LONG_CLASSES = ["le-4095", "gt-4095", "gt-4095", "gt-4095", "gt-65535"]  # classes of the total PDU length, drawn uniformly
+# filler: 4-byte groups (group number in 3 bytes, one mixed byte) aligned so that in a DTC list (3-byte head) every filler record names another DTC
+_FILL = b"".join(bytes([(m >> 16) & 0xFF, (m >> 8) & 0xFF, m & 0xFF, (m * 37 + 11) & 0xFF]) for m in range(1, 18000))
+
+
+def long_len(rng: random.Random, lc: str) -> int:
+    if lc == "le-4095":  # the longest PDUs a classic ISO-TP first frame can announce: control group
+        return rng.choice([4095, 4095, 4094, rng.randint(3000, 4095)])
+    if lc == "gt-4095":
+        return rng.choice([4096, 4097, 4098, 4099, 4100, rng.randint(4101, 4200), rng.randint(4096, 20000), rng.randint(4096, 65535)])
+    return rng.choice([65536, 65537, 65538, 65539, rng.randint(65540, 70000)])
+
+
+def lc_of(n: int) -> str:
+    return "le-4095" if n <= 4095 else "gt-4095" if n <= 65535 else "gt-65535"
+
+
+def fill(prefix: bytes, total: int, k: int) -> bytes:
+    """prefix followed by filler up to `total` bytes; the filler byte at absolute index i is _FILL[i + 1 + 4 * k], so the whole string
+    is described by (its first len(prefix) bytes, total, k) whatever was cut from or added to its end."""
+    if total <= len(prefix):
+        return prefix
+    return prefix + _FILL[len(prefix) + 1 + 4 * k : total + 1 + 4 * k]
+
+
+def spec_of(b: bytes) -> dict[str, Any] | None:
+    """Compact description of a long byte string built by fill() (witnesses keep only the first 64 bytes of long strings)."""
+    if len(b) <= 256:
+        return None
+    for k in range(256):
+        if b[64:80] == _FILL[65 + 4 * k : 81 + 4 * k] and fill(b[:64], len(b), k) == b:
+            return {"head": b[:64], "len": len(b), "k": k}
+    return None
+
+
+def short_id(b: bytes) -> Any:
+    """Identity of a byte string for the distinct-case count (long strings are built by fill(): head, length and one filler byte)."""
+    return b if len(b) <= 256 else (b[:64], len(b), b[64], b[-1])
+
+
+def from_spec(sp: dict[str, Any]) -> bytes:
+    head = sp["head"]
+    if isinstance(head, str):
+        head = bytes.fromhex(head[4:])
+    return fill(head, int(sp["len"]), int(sp["k"]))
+
 
 
 def reassign(req: Any, donor: Any) -> None:
@@ -117,7 +183,7 @@ class Mon:
 
     def expect(self, fam: str, want: set[str], q: bytes, reply: bytes, req: Any, form: str) -> str:
         ctx = self.ctx
-        ctx.case((form, q, reply))
+        ctx.case((form, short_id(q), short_id(reply)))
         got, obj = outcome(self.helpers.parse_pdu, self.exc, reply, req)
         sid = q[0]
         ctx.reach(f"outcome.{got.split(':')[0]}:{sid:02x}")
@@ -128,6 +194,10 @@ class Mon:
         w = {"request": q, "reply": reply, "form": form, "family": fam, "got": got, "want": sorted(want), "detail": repr(obj)[:300]}
         if self.prev is not None:
             w.update(self.prev)
+        for name, b in (("request", q), ("reply", reply)):
+            sp = spec_of(b)
+            if sp is not None:  # long strings are cut in the witness file: how to rebuild them
+                w[name + "_spec"] = sp
         sub = ""
         if sid in (0x19, 0x2C, 0x31) and len(q) > 1:
             sub = f".{q[1] & 0x7F:02x}"
@@ -248,6 +318,203 @@ class Mon:
             return
         ctx.reach("reuse.same-primary-identifier")
 
+    # ---- length dimension: requests / replies longer than any segmenting transport announces ----------------------------------
+    def long_request(self, kinds: dict[str, type], c: gen_uds.Case, total: int, k: int) -> tuple[bytes, Any] | None:
+        """A request of the kind of case c with c's identifiers whose open-ended part (data record, key, option record, list of
+        identifiers / sources) is extended so that the PDU is `total` bytes long (a few more where that part has a granularity):
+        (request bytes by the reference, typed object saying exactly these bytes or None).  None: the kind has a fixed length."""
+        ctx = self.ctx
+        q = c.expect
+        assert q is not None
+        args = list(c.args)
+        bi = [i for i, a in enumerate(args) if isinstance(a, bytes)]
+        ql: bytes | None = None
+        buildable = True
+        if c.cls == "WriteMemoryByAddressRequest" and args[2] is None:
+            # memory size derived from the data: ALFID / address / size are the reference's for the long data
+            n = total - len(q) + len(args[1])
+            try:
+                head = iso.req_wmba(args[0], bytes(n), None, args[3])[:-n]
+            except ValueError:  # the explicit ALFID of this case has a size field too narrow for that many bytes
+                ctx.reach("long.request.size-field-too-narrow")
+                return None
+            ql = fill(head + args[1], len(head) + n, k)
+            args[1] = ql[len(head) :]
+            if iso.req_wmba(args[0], args[1], None, args[3]) != ql:
+                return None
+        elif bi:
+            ql = fill(q, total, k)
+            args[bi[-1]] = args[bi[-1]] + ql[len(q) :]
+        elif c.cls == "ReadDataByIdentifierRequest":
+            ql = fill(q, total + (total - len(q)) % 2, k)
+            pad = ql[len(q) :]
+            dids = list(args[0]) if isinstance(args[0], list) else [args[0]]
+            args[0] = dids + [int.from_bytes(pad[i : i + 2], "big") for i in range(0, len(pad), 2)]
+        else:
+            buildable = False
+            for t in range(32):  # lists of sources / regions: whole entries only
+                cand = fill(q, total + t, k)
+                if iso.request_wellformed(cand):
+                    ql = cand
+                    break
+        if ql is None or ql[0] != q[0] or len(ql) < total or not iso.request_wellformed(ql):
+            return None
+        typed = None
+        if buildable:
+            try:
+                typed = kinds[c.cls](*args, **c.kwargs)
+            except Exception:
+                ctx.reach(f"long.typed-refused-by-constructor:{c.cls}")
+            if typed is not None and typed.pdu != ql:
+                ctx.reach(f"long.typed-says-other-bytes:{c.cls}")
+                typed = None
+        return ql, typed
+
+    @staticmethod
+    def long_reply(g: bytes, total: int, k: int) -> bytes | None:
+        """g with its open-ended tail extended to `total` bytes (up to 3 more: record granularity); None if no such reply decodes."""
+        for t in range(4):
+            cand = fill(g, total + t, k)
+            if iso.decode_response(cand) is not None:
+                return cand
+        return None
+
+    def long_judge(self, side: str, q: bytes, forms: list[tuple[str, Any]], g: bytes | None, foreign: list[bytes], rng: random.Random, k: int, full: bool) -> None:
+        """The statement's outcome classes for request q (any length) and replies of any length: genuine, one changed byte at each echo
+        position, data length (0x23), negative responses, other services' positive replies, the request frame itself.  The family
+        names the length class of the longer one of request and reply."""
+        sid = q[0]
+
+        def fam(reply: bytes, what: str) -> str:
+            return f"{side}[{lc_of(max(len(q), len(reply)))}]/{what}"
+
+        for form, req in forms:
+            if g is not None:
+                self.expect(fam(g, "genuine"), {"returned"}, q, g, req, form)
+                echo = iso.primary_echo(q)
+                if echo is not None:
+                    what, eb = echo
+                    for i in range(len(eb)):
+                        ch = bytearray(g[: 2 + i])
+                        ch[1 + i] ^= rng.choice((1, 0x80, rng.randrange(1, 256)))
+                        chb = bytes(ch) + g[2 + i :]
+                        want = {"mismatch"} if iso.decode_response(chb) is not None else {"mismatch", "malformed"}
+                        self.expect(fam(chb, f"echo-changed[{what}]"), want, q, chb, req, form)
+                if sid == 0x23 and len(g) > 2:
+                    for chb in (g[:-1], fill(g, len(g) + 1, k)):
+                        self.expect(fam(chb, "echo-changed[data length]"), {"mismatch"}, q, chb, req, form)
+            for fr in foreign:
+                self.expect(fam(fr, "other-service-positive"), {"mismatch"}, q, fr, req, form)
+            if not full:
+                continue
+            self.expect(fam(b"", "negative-same-service"), {"returned"}, q, bytes([0x7F, sid, rng.choice(self.codes)]), req, form)
+            other = rng.choice([s for s in iso.REQUEST_SIDS if s != sid])
+            self.expect(fam(b"", "negative-other-service"), {"mismatch"}, q, bytes([0x7F, other, rng.choice(self.codes)]), req, form)
+            self.expect(fam(b"", "negative-same-service-undefined-code"), {"malformed"}, q, bytes([0x7F, sid, rng.choice(self.invalid_codes)]), req, form)
+            self.expect(fam(q, "own-request-frame-echoed"), {"mismatch"}, q, q, req, form)
+
+    def long_cases(self, kinds: dict[str, type], c: gen_uds.Case, rng: random.Random, pool: dict[int, list[bytes]]) -> None:
+        """The request of case c and its replies at PDU lengths nobody tries: the statement has no length limit and UDS over DoIP /
+        HSFZ / TCP carries PDUs longer than the 4095 bytes of a classic ISO-TP first frame (and longer than 65535 bytes).  Three
+        sides: the request long (its replies short), the replies long (request short), both long; the longest PDUs below the
+        ISO-TP limit are the control group."""
+        ctx = self.ctx
+        q = c.expect
+        assert q is not None
+        if len(q) > LONG_HEAD_MAX:
+            return
+        sid = q[0]
+        lc = rng.choice(LONG_CLASSES)
+        k = rng.randrange(256)
+        self.prev = None
+        others = [s for s in iso.REQUEST_SIDS if s != sid and pool.get(s)]
+
+        def long_foreign(n: int) -> list[bytes]:
+            """positive replies of other services, `n` bytes long: the reply a neighbouring long read / upload would have got"""
+            out: list[bytes] = []
+            for _ in range(6):
+                fl = self.long_reply(rng.choice(pool[rng.choice(others)])[:LONG_HEAD_MAX], n, k)
+                if fl is not None:
+                    out.append(fl)
+                    if len(out) == 2:
+                        break
+            return out
+
+        # side 1: long request, short replies
+        lr = self.long_request(kinds, c, long_len(rng, lc), k)
+        forms_l: list[tuple[str, Any]] = []
+        if lr is not None:
+            ql, typed = lr
+            ctx.reach(f"long.request:{sid:02x}")
+            ctx.reach(f"long.request.{lc_of(len(ql))}")
+            if typed is not None:
+                ctx.reach(f"long.request.typed:{c.cls}")
+                forms_l.append(("typed", typed))
+            forms_l.append(("raw", self.service.RawRequest(ql)))
+            g = iso.genuine_positive(ql, body=rng.randbytes(rng.choice([1, 2, 5])))
+            if g is not None and iso.decode_response(g) is None:
+                g = None
+            self.long_judge("long-request", ql, forms_l, g, [rng.choice(pool[rng.choice(others)])], rng, k, True)
+        # side 2: short request, long replies (0x23: the request asks for that many bytes)
+        n = long_len(rng, lc)
+        forms_s: list[tuple[str, Any]] = [(f, r) for f, r, _ in self.request_forms(kinds, c)]
+        qs = q
+        gl: bytes | None = None
+        if c.cls == "ReadMemoryByAddressRequest":
+            qs = iso.req_rmba(c.args[0], n - 1, None)
+            forms_s = [("raw", self.service.RawRequest(qs))]
+            try:
+                t = kinds[c.cls](c.args[0], n - 1, None)
+                if t.pdu == qs:
+                    forms_s.insert(0, ("typed", t))
+            except Exception:
+                ctx.reach(f"long.typed-refused-by-constructor:{c.cls}")
+            gl = fill(b"\x63", n, k)
+        else:
+            gs = iso.genuine_positive(q, body=rng.randbytes(rng.choice([1, 2, 5])))
+            if gs is not None and iso.decode_response(gs) is not None and len(gs) <= LONG_HEAD_MAX:
+                gl = self.long_reply(gs, n, k)
+                if gl is None:
+                    # replies of a fixed length: the over-long one is an undecodable reply of the right service
+                    ol = fill(gs, n, k)
+                    ctx.reach(f"long.reply-overlong-undecodable.{lc_of(len(ol))}")
+                    for form, req in forms_s:
+                        self.expect_undecodable(f"long-reply[{lc_of(len(ol))}]/overlong", qs, ol, req, form)
+        if gl is not None:
+            ctx.reach(f"long.reply:{sid:02x}")
+            ctx.reach(f"long.reply.{lc_of(len(gl))}")
+        else:
+            ctx.reach(f"long.foreign-reply-only:{sid:02x}")
+        self.long_judge("long-reply", qs, forms_s, gl, long_foreign(n), rng, k, False)
+        # side 3: both long
+        if lr is not None and sid != 0x23:
+            g0 = iso.genuine_positive(ql)
+            if g0 is not None and iso.decode_response(g0) is not None and len(g0) <= LONG_HEAD_MAX:
+                gb = self.long_reply(g0, long_len(rng, lc), k)
+                if gb is not None:
+                    ctx.reach(f"long.both.{lc_of(max(len(ql), len(gb)))}")
+                    self.long_judge("long-both", ql, forms_l, gb, [], rng, k, False)
+
+    def expect_undecodable(self, fam: str, q: bytes, reply: bytes, req: Any, form: str) -> str:
+        """An undecodable reply of the right service: malformed; accepted with identical bytes is counted as lenient, not reported
+        (the rule the truncated replies are judged by)."""
+        ctx = self.ctx
+        sid = q[0]
+        got, obj = outcome(self.helpers.parse_pdu, self.exc, reply, req)
+        ctx.case((form, short_id(q), short_id(reply)))
+        ctx.reach(f"outcome.{got.split(':')[0]}:{sid:02x}")
+        if got == "malformed":
+            return got
+        if got == "returned" and obj.pdu == reply:
+            ctx.reach("lenient-overlong-accepted")
+            return got
+        w = {"request": q, "reply": reply, "form": form, "family": fam, "got": got, "want": ["malformed"]}
+        sp = spec_of(reply)
+        if sp is not None:
+            w["reply_spec"] = sp
+        ctx.violation(f"parse_pdu/{fam}/{got}-instead-of-malformed/{sid:02x}", "undecodable reply of the right service is not reported as malformed", w)
+        return got
+
     def run_request(self, kinds: dict[str, type], c: gen_uds.Case, rng: random.Random, pool: dict[int, list[bytes]]) -> None:
         ctx = self.ctx
         q = c.expect
@@ -353,6 +620,8 @@ class Mon:
                 if gen is not None and first in (sid, sid | 0x80, (sid + 0x40) ^ 0x80):
                     self.expect(f"foreign-first-byte[{cls_}]+genuine-tail", {"mismatch"}, q, bytes([first]) + gen[1:], req, form)
         self.prev = None
+        if rng.random() < LONG_SHARE.get(ctx.tier, 0.12):
+            self.long_cases(kinds, c, rng, pool)
 
     def nrc_mapping(self) -> None:
         ctx = self.ctx
@@ -513,7 +782,8 @@ def replay(ctx: Any, witness: dict[str, Any]) -> None:
         return bytes.fromhex(x[4:]) if isinstance(x, str) and x.startswith("hex:") else x
 
     if "request" in witness and "reply" in witness:
-        q, reply = ux(witness["request"]), ux(witness["reply"])
+        q = from_spec(witness["request_spec"]) if "request_spec" in witness else ux(witness["request"])
+        reply = from_spec(witness["reply_spec"]) if "reply_spec" in witness else ux(witness["reply"])
         form = witness.get("form", "raw")
         if form.endswith("-reassigned") and "previous" in witness:
             # the same use: an object that said `previous`, judged once, then re-assigned to say `request`
@@ -528,7 +798,12 @@ def replay(ctx: Any, witness: dict[str, Any]) -> None:
                 req.pdu = q
             mon.prev = {"previous": q0, "previous_kind": witness.get("previous_kind", "")}
         else:
-            req = mon.service.RawRequest(q) if form != "typed" else mon.service.UDSRequest.parse_dynamic(q)
-        mon.expect(witness.get("family", "replay"), set(witness.get("want", ["returned"])), q, reply, req, witness.get("form", "raw"))
+            req = mon.service.RawRequest(q)
+            if form == "typed":
+                try:
+                    req = mon.service.UDSRequest.parse_dynamic(q)
+                except Exception:  # the tree's own request parser refuses these bytes: the raw form of the same pair
+                    form = "raw"
+        mon.expect(witness.get("family", "replay"), set(witness.get("want", ["returned"])), q, reply, req, form)
     else:
         mon.nrc_mapping()
